@@ -389,7 +389,7 @@ bool TasgridWrapper::executeCommand(){
             grid.makeSequenceGrid(num_dimensions, num_outputs, depth, depth_type, rule, aniso, llimits);
         }else if (command == command_makefourier or (command == command_makequadrature and rule == rule_fourier)){
             grid.makeFourierGrid(num_dimensions, num_outputs, depth, depth_type, aniso, llimits);
-        }else if (command == command_makelocalp or (command == command_makequadrature and OneDimensionalMeta::isGlobal(rule))){
+        }else if (command == command_makelocalp or (command == command_makequadrature and OneDimensionalMeta::isLocalPolynomial(rule))){
             grid.makeLocalPolynomialGrid(num_dimensions, num_outputs, depth, order, rule, llimits);
         }else{ // wavelets
             grid.makeWaveletGrid(num_dimensions, num_outputs, depth, order, llimits);
